@@ -397,6 +397,30 @@ def run(ctx):
                    "through the saturating cast and is converted to T::MAX, a different integer", g.where(rb))
         ctx.floor("C08.N7 float->int->float exactness tests" + tag, len(rt), 6)
         check_mixed_orderings(ctx, prog, tag)
+        # ---- N11 (after seed C08-9): who may turn an integer into a float (or back) inside the value core.  Comparing or
+        # combining `x as f64` with a float silently rounds x above 2^53; the core's equality, order and operators go
+        # through the exactness-aware conversions instead (`as_f64`: N7, the mixed orderings: N8).  A cast anywhere else
+        # in value/mod.rs / value/ops.rs (a "fast path" for plain numbers) is reported.
+        ALLOWED11 = {"minijinja::value::ops::as_f64": "N7 decides its exactness test",
+                     "minijinja::value::cmp_f64_i128": "N8 decides its saturation bound",
+                     "minijinja::value::cmp_f64_u128": "N8 decides its saturation bound"}
+        n11 = 0
+        for g in sorted(prog.fns.values(), key=lambda x: x.path):
+            if g.crate != "minijinja" or not g.loc.f.endswith(("minijinja/src/value/mod.rs", "minijinja/src/value/ops.rs")):
+                continue
+            root = g.root or g.path
+            for bb, i, st in query.casts(g, kinds=("IntToFloat", "FloatToInt")):
+                n11 += 1
+                rv = st["rv"]
+                # conversions for output / construction are not comparisons: only the functions that compare, hash or
+                # calculate are in scope (they take two values, or are the Eq / Ord / Hash impls)
+                ok = root in ALLOWED11
+                ctx.ob("C08.N11.integer-float-casts-stay-in-the-exact-conversions", "%s%s|%s as %s" % (tag, root, rv["from"], rv["to"]), ok,
+                       ALLOWED11.get(root) or
+                       "%s casts %s to %s inside the value core: above 2^53 the cast rounds, so a result computed from it "
+                       "(an equality, an ordering, an operator) disagrees with the exact one and with the same number stored in "
+                       "another width" % (root.split("::")[-1], rv["from"], rv["to"]), g.where(bb))
+        ctx.floor("C08.N11 integer/float casts in the value core" + tag, n11, 10)
         # ---- N10 (= C07.V3, after seed C08-7): a float reached through the integer / float order (`0 <= -0.0`) is
         # compared with IEEE `==` first; a bit-pattern order (total_cmp) alone tells -0.0 from the integer 0
         from .c07 import check_float_order_vs_equality
